@@ -194,7 +194,7 @@ def pop_cases(tier, seed):
            "vsc.visitors.coverage_save_visitor.CoverageSaveVisitor.save", "vsc.impl.coverage_registry.CoverageRegistry.covergroup_types"],
           pop_cases, kind="bounded",
           bound="seeded populations: 1..2 covergroup classes (one parameterised: 2 shapes), 1..3 instances, coverpoints with "
-                "single/array/partitioned bins + ignore/illegal bins + a cross, at_least in {1,2}, weights in {1,2}, 0..12 samples; "
+                "single/array/partitioned bins + ignore/illegal bins + a cross, at_least in {1,2}, weights in {1,2}, 0..12 samples, with and without polling the coverage getters between samples; "
                 "report model, text report and UCIS XML (re-read with lxml) compared with the in-memory getters")
 def c_pyucis(c, k):
     import vsc
@@ -226,12 +226,22 @@ def c_pyucis(c, k):
     insts = [cgA(r.choice([0, 1])) for _ in range(r.choice([1, 2, 3]))]
     if r.random() < 0.5:
         insts.append(cgB())
+    poll = k % 2 == 1              # every other population polls the coverage getters between samples (cached percentages)
     for _ in range(r.randint(0, 12)):
         i = r.choice(insts)
         if isinstance(i, cgB):
             i.sample(r.randrange(4))
         else:
             i.sample(r.randrange(8), r.randrange(4))
+        if poll:
+            for j in insts:
+                j.get_inst_coverage()
+                j.get_coverage()
+                for cp in j.get_model().coverpoint_l:
+                    cp.get_coverage()
+                    cp.get_inst_coverage()
+                for cr in j.get_model().cross_l:
+                    cr.get_coverage()
 
     def mem_cg(m):
         d = {"cps": {}, "crs": {}}
